@@ -460,12 +460,12 @@ Section Core.
   Proof.
     intros Hinv Ha.
     eapply post_weaken.
-    - apply (run_capop_okP cfg ncap Hcfg Hpol owned) with (s := s) (v := v) (o := o).
+    - apply (run_capop_okP cfg ncap Hcfg Hpol owned) with (F := True) (s := s) (v := v) (o := o).
       + intros s0 s' bl c size Ho Hse. apply (owned_grown s0 s' bl c size Ho); [exact (se_ledger _ _ Hse)|exact (se_next _ _ Hse)].
       + intros. apply owned_fresh_block.
-      + exact Hinv.
+      + destruct Hinv as [Hs|H]; [left; split; [exact Hs|exact I]|right; exact H].
       + exact Ha.
-    - intros u s' H. exact H.
+    - intros u s' [[H _]|H]; [left; exact H|right; exact H].
     - intros s' ->. exact Hinv.
   Qed.
 
